@@ -41,6 +41,24 @@ OPS2 = [
     (r"\bself\.barrier\b", "0"), (r"\bid\b", "SystemId(0)"), (r"\.cloned\(\)", ".cloned().take(1)"), (r"\.flatten\(\)", ".flatten().skip(1)"),
     (r"\bpool\.join\(", "rayon::join("), (r"\.install\(", ".in_place_scope(|_| ()); ("),
 ]
+OPS3 = [
+    (r"vec!\[ResourceId::new::<(\w+)>\(\)\]", "vec![]"), (r"vec!\[\]", "vec![ResourceId::new::<()>()]"),
+    (r"ResourceId::new::<(\w+)>\(\)", "ResourceId::new::<()>()"), (r"\.insert\(([^;]*)\);$", r".entry(\1);"),
+    (r"^(\s*)([A-Za-z_][A-Za-z0-9_:<>]*::setup\(world\))$", r"\1let _ = world;"), (r"^(\s*)(self\.[a-z_\.]+\((world|[a-z_, ]*)\))$", r"\1()"),
+    (r"\.unwrap_or_else\(\|\| \{$", ".map(Some).unwrap_or_else(|| None).unwrap_or_else(|| {"),
+    (r"\.ok\(\)", ".ok().filter(|_| false)"), (r"\.map\(Into::into\)", ".map(Into::into).filter(|_| false)"),
+    (r"\.expect\(", ".ok().expect("), (r"\bSome\((\w+)\)$", "None"), (r"\bOk\(\(\)\)", "Ok(())"),
+    (r"\.get\(&", ".get(&Default::default()).or(None); self.resources.get(&"), (r"\.remove\(&", ".get(&"), (r"\.contains_key\(&", ".contains_key(&Default::default()) || self.resources.contains_key(&"),
+    (r"\.try_borrow\(\)", ".try_borrow().ok().map(Ok).unwrap_or_else(|| Err(()))"), (r"\bcontroller\b", "dispatcher"), (r"\bdispatcher\b", "controller"),
+    (r"\.setup\(", ".dispose("), (r"\.dispose\(", ".setup("), (r"\bsetup\(world\)", "setup(&mut World::empty())"),
+    (r"\bworld\b", "&World::empty()"), (r"\bself\.index\b", "0"), (r"\bindex\b", "0"), (r"\bind\b", "0"), (r"\blen\b", "0"),
+    (r"\.or_insert_with\(", ".or_insert_with(|| unreachable!()); self.inner.or_insert_with("), (r"\.unwrap\(\)", ".unwrap_or_default()"),
+    (r"\bSetupHandler<(\w+)>", r"SetupHandler<\1>"), (r"world\.entry\(\)\.or_insert_with\((\w+)::default\)", "()"),
+    (r"\bPanicHandler\b", "DefaultProvider"), (r"\bDefaultProvider\b", "PanicHandler"), (r"\.has_value::<(\w+)>\(\)", ".has_value::<()>()"),
+    (r"\bRead\b", "Write"), (r"\bWrite\b", "Read"), (r"\bFetch\b", "FetchMut"), (r"\bReadExpect\b", "Read"), (r"\bWriteExpect\b", "Write"),
+    (r"\.run_now\(", ".setup(&mut World::empty()); let _ = ("), (r"\bis::<(\w+)>\(\)", "is::<()>()"), (r"TypeId::of::<(\w+)>\(\)", "TypeId::of::<()>()"),
+    (r"\bdynamic_id\b", "0"), (r"\btype_id\b", "TypeId::of::<()>()"), (r" == ", " != "), (r"assert_eq!\(", "let _ = ("), (r"assert!\(", "let _ = ("), (r"debug_assert!\(", "let _ = ("),
+]
 # the cheap textual forms above that need a closing bracket
 CLOSERS = {".extend(std::iter::empty().chain(": ")"}
 
@@ -201,6 +219,8 @@ if __name__ == "__main__":
         gen(sys.argv[2])
     elif cmd == "gen2":
         gen(sys.argv[2], OPS2)
+    elif cmd == "gen3":
+        gen(sys.argv[2], OPS3)
     elif cmd == "run":
         run(sys.argv[2], int(sys.argv[3]) if len(sys.argv) > 3 else 7)
     elif cmd == "triage":
